@@ -409,7 +409,98 @@ pub fn gen_case_growth(rng: &mut Rng, force_rc: Option<bool>) -> Case {
 /// 254/255/256-byte length-encoding boundary and keys that are prefixes of each other; commits and
 /// pipeline steps interleaved with iterator calls (seek, seek_to_first, seek_to_last, next, prev with
 /// direction changes) on an iterator that stays open across commits.
+/// A btree column grown by ascending (or shuffled) insertions to 40-130 keys, so that inner nodes reach
+/// their maximum fan-out (ORDER = 8 separators), scanned completely forwards and backwards at several
+/// sizes, both with the pipeline drained and with commits still in the overlays.
+pub fn gen_case_btree_large(rng: &mut Rng) -> Case {
+	let nkeys = rng.range(40, 130) as usize;
+	let cols = vec![ColCfg { btree: true, rc: false, preimage: false, uniform: false, compression: 0, threshold: 4096 }];
+	let mut ks: Vec<Vec<u8>> = Vec::new();
+	while ks.len() < nkeys {
+		let len = rng.range(1, 6) as usize;
+		let k: Vec<u8> = (0..len).map(|_| *rng.pick(&[0u8, 1, 2, 0x7f, 0x80, 0xff])).collect();
+		if !ks.contains(&k) {
+			ks.push(k);
+		}
+	}
+	ks.sort();
+	let mut order: Vec<usize> = (0..nkeys).collect();
+	match rng.below(4) {
+		0 => order.reverse(),
+		1 => rng.shuffle(&mut order),
+		_ => (),
+	}
+	let mut steps = vec![Step::IterNew(0)];
+	let mut pos = 0usize;
+	let mut inserted = 0usize;
+	let scan = |steps: &mut Vec<Step>, n: usize, rng: &mut Rng| {
+		if rng.chance(2, 3) {
+			steps.push(Step::IterSeek(0));
+			if ks[0].is_empty() {
+				// (keys here are never empty; kept for symmetry with the small generator)
+			}
+			for _ in 0..n + 2 {
+				steps.push(Step::IterNext);
+			}
+		}
+		if rng.chance(1, 3) {
+			steps.push(Step::IterLast);
+			for _ in 0..n + 2 {
+				steps.push(Step::IterPrev);
+			}
+		}
+	};
+	while pos < nkeys {
+		let n = std::cmp::min(rng.range(1, 12) as usize, nkeys - pos);
+		let ops: Vec<(u8, u8, usize, u64)> = (0..n).map(|i| (0u8, 0u8, order[pos + i], (rng.range(1, 1 << 20) << 32) | rng.range(0, 20))).collect();
+		pos += n;
+		inserted += n;
+		steps.push(Step::Commit(ops));
+		let drained = rng.chance(3, 4);
+		if drained {
+			steps.push(Step::Process);
+			steps.push(Step::Flush);
+			steps.push(Step::EnactAll);
+			if rng.chance(1, 3) {
+				steps.push(Step::Clean);
+			}
+		} else if rng.chance(1, 2) {
+			steps.push(Step::Process);
+		}
+		if inserted >= 40 && rng.chance(1, 2) {
+			scan(&mut steps, inserted, rng);
+		}
+	}
+	// drain, scan, then thin the tree out and scan again
+	for _ in 0..12 {
+		steps.push(Step::Process);
+	}
+	steps.push(Step::Flush);
+	steps.push(Step::EnactAll);
+	scan(&mut steps, nkeys, rng);
+	for _ in 0..rng.range(1, 6) {
+		let n = rng.range(1, 20) as usize;
+		let ops: Vec<(u8, u8, usize, u64)> = (0..n).map(|_| (0u8, 1u8, rng.below(nkeys as u64) as usize, 0u64)).collect();
+		steps.push(Step::Commit(ops));
+		if rng.chance(2, 3) {
+			steps.push(Step::Process);
+			steps.push(Step::Flush);
+			steps.push(Step::EnactAll);
+		}
+	}
+	scan(&mut steps, nkeys, rng);
+	if rng.chance(1, 2) {
+		steps.push(Step::Reopen);
+		steps.push(Step::IterNew(0));
+		scan(&mut steps, nkeys, rng);
+	}
+	Case { cols, keys: vec![ks], steps, salt_zero: false, class: "c04".to_string() }
+}
+
 pub fn gen_case_btree(rng: &mut Rng) -> Case {
+	if rng.chance(1, 16) {
+		return gen_case_btree_large(rng)
+	}
 	let nkeys = rng.range(5, 14) as usize;
 	let ncols = rng.range(1, 2) as usize;
 	let mut cols = vec![ColCfg { btree: true, rc: false, preimage: false, uniform: false, compression: *rng.pick(&[0u8, 0, 1, 2]), threshold: *rng.pick(&[0u32, 4096]) }];
@@ -1026,7 +1117,9 @@ pub fn main(args: &[String], kind: &str) -> i32 {
 	for case in cases {
 		let toks = case_tokens(&case);
 		out.case(&toks);
+		crate::util::watch_begin(&out, &toks);
 		let run = run_impl(&case, &scratch);
+		crate::util::watch_end();
 		out.obs(&run.obs);
 		match oracle(&case, &run) {
 			Ok(()) => oracle_lines.push_str("ok\n"),
